@@ -32,6 +32,7 @@ TESTS_TEXTS = [
     " assert_used, B602", " B101 because it is fine", " because reasons", " B999", " B101 B999", " b101", " B104", " B105 B106",
     " hardcoded_password_funcarg", " hardcoded_bind_all_interfaces,hardcoded_password_funcarg", " B301", " pickle", " B403 B301",
     " B110", " try_except_pass", " B001", " blacklist",
+    " B602: constant command", " B101: fine, B607", ": B602: checked", " subprocess_popen_with_shell_equals_true: reviewed", " B607:",
     " xml_bad_cElementTree", " xml_bad_ElementTree", " xml_bad_cElementTree, B602", " B313", " B314 xml_bad_cElementTree", " XML_BAD_CELEMENTTREE", " Assert_Used",
 ]
 PREFIXES = ["# nosec", "#nosec", "#  nosec", "# noqa # nosec", "# type: ignore # nosec", "# pragma: no cover  #nosec"]
@@ -50,7 +51,8 @@ def spec_names(comment, registry):
         rest = rest[1:]
     rest = rest.split("#", 1)[0]
     out = set()
-    for tok in re.split(r"[,\s]+", rest.strip()):
+    # ':' is a documented separator too: `# nosec B602: constant command` names B602 (seeded change C02-m3 required whitespace/comma around a token)
+    for tok in re.split(r"[,\s:]+", rest.strip()):
         if not tok:
             continue
         if tok in registry["ids"]:
